@@ -64,7 +64,16 @@ func (r *runner) deliver(ctx context.Context, name string, t target, topic strin
 	d := t.Deliver(ctx, topic, data)
 	runtime.ReadMemStats(&after)
 	r.res.Evaluations++
-	if _, _, err := p2pmsg.Unmarshal(data); err == nil { // non-trivial: the bytes decode to an envelope with a known message
+	decodes := func() (ok bool) { // (the rig's own look at the bytes must not die where a node would)
+		defer func() {
+			if recover() != nil {
+				ok = false
+			}
+		}()
+		_, _, err := p2pmsg.Unmarshal(data)
+		return err == nil
+	}
+	if decodes() { // non-trivial: the bytes decode to an envelope with a known message
 		r.res.Distinct(name + "|" + topic + "|" + hex.EncodeToString(data))
 		if len(r.res.Samples) < 4 && d.Handled && strings.Contains(label, "mutant") {
 			r.res.Sample(map[string]string{"node": name, "topic": topic, "input": label, "envelope_hex": hex.EncodeToString(data),
@@ -331,7 +340,9 @@ func mutants(rnd *hx.Rand, msg proto.Message) []proto.Message {
 					})
 				}
 			case fd.Kind() == protoreflect.StringKind:
-				for _, s := range []string{"", "0x", "zz", "0x" + strings.Repeat("ab", 32), strings.Repeat("a", 5000)} {
+				// (also numbers in the spellings a lenient parser takes: exponents, signs, huge digit strings)
+				for _, s := range []string{"", "0x", "zz", "0x" + strings.Repeat("ab", 32), strings.Repeat("a", 5000),
+					"1e18", "1e+18", "1e600000000", "1e400000000", "-1", "0." + strings.Repeat("0", 300) + "1", strings.Repeat("9", 4000), "1E99999", "Inf", "NaN"} {
 					s := s
 					emit(path, func(x protoreflect.Message) { x.Set(fd, protoreflect.ValueOfString(s)) })
 				}
